@@ -51,7 +51,7 @@ def run(ctx):
         bad, evs = ctx.monitor_all('operator+schedule', 'Moves', 'Moves.cfg', tr, 'sched_%d' % sd, timeout=6000)
         handle(ctx, bad, evs, 'sched_%d' % sd)
         tally(ctx, evs)
-    return ctx.finish(rule='Moves.tla executes every recorded operator on the region model of Steps.tla and states the C11 clauses (same number of voters and learners, '
+    return ctx.finish(level='exploration', rule='Moves.tla executes every recorded operator on the region model of Steps.tla and states the C11 clauses (same number of voters and learners, '
                            'not left in the joint state, one peer per store in every intermediate state, adds only on up stores that do not hold the region, leader '
                            'transfers only to voters on accepting stores, source and target differ); histories of Scatter calls (groups, earlier decisions, '
                            'operators applied or not) on one RegionScatterer, and the schedulers balance-region, balance-leader, shuffle-region, shuffle-leader, '
